@@ -1,0 +1,71 @@
+//! Verification hooks (feature `verif-hooks`, off by default).
+//!
+//! Thin public wrappers that call the compiler's private byte-emission helpers
+//! on a fresh [Compiler], so that external verification harnesses can reach them.
+//! Nothing here is used by the compiler itself.
+
+use super::*;
+
+/// A fresh [Compiler] whose byte buffer can be inspected
+pub struct EmitProbe(Compiler);
+
+impl EmitProbe {
+    /// Makes a probe with the given bytes already emitted
+    pub fn with_bytes(bytes: Vec<u8>) -> Self {
+        Self(Compiler {
+            bytes,
+            span_stack: vec![Span::default()],
+            ..Default::default()
+        })
+    }
+
+    /// The bytes emitted so far
+    pub fn bytes(&self) -> &[u8] {
+        &self.0.bytes
+    }
+
+    /// Calls `Compiler::push_var_u32`
+    pub fn push_var_u32(&mut self, n: u32) {
+        self.0.push_var_u32(n)
+    }
+
+    /// Calls `Compiler::push_offset_placeholder`
+    pub fn push_offset_placeholder(&mut self) -> usize {
+        self.0.push_offset_placeholder()
+    }
+
+    /// Calls `Compiler::update_offset_placeholder`, returns true for `Ok`
+    pub fn update_offset_placeholder(&mut self, offset_ip: usize) -> bool {
+        self.0.update_offset_placeholder(offset_ip).is_ok()
+    }
+
+    /// Calls `Compiler::push_jump_back_op`, returns true if no error was reported
+    #[allow(clippy::unit_arg, clippy::let_unit_value)]
+    pub fn push_jump_back_op(&mut self, op: Op, bytes: &[u8], target_ip: usize) -> bool {
+        let result = self.0.push_jump_back_op(op, bytes, target_ip);
+        ResultLike::is_ok_like(&result)
+    }
+
+    /// Calls `Compiler::push_op_without_span`
+    pub fn push_op_without_span(&mut self, op: Op, bytes: &[u8]) {
+        self.0.push_op_without_span(op, bytes)
+    }
+}
+
+/// Lets the `push_jump_back_op` hook compile whether or not the helper reports errors
+pub trait ResultLike {
+    /// True for `()` and for `Ok(_)`
+    fn is_ok_like(&self) -> bool;
+}
+
+impl ResultLike for () {
+    fn is_ok_like(&self) -> bool {
+        true
+    }
+}
+
+impl<T, E> ResultLike for std::result::Result<T, E> {
+    fn is_ok_like(&self) -> bool {
+        self.is_ok()
+    }
+}
